@@ -25,7 +25,7 @@ def compose(p, t0, dt):
     return res
 
 
-def piece_within(quad_pts, cubic_pts, t0, t1, acc, slack=1e-9):
+def piece_within(quad_pts, cubic_pts, t0, t1, acc, slack=1e-13):
     qx, qy = O.seg_polys(quad_pts)
     cx, cy = O.seg_polys(cubic_pts)
     ex = O.padd(qx, O.pscale(compose(cx, t0, Fr(t1) - Fr(t0)), -1))
@@ -191,5 +191,9 @@ def generate(rng, tier):
         batch = [rnd_cubic(rng)[0] for _ in range(k)]
         bsc = max(1.0, max(abs(x) for c in batch for x in c))
         yield to_splines(batch, bsc * 10.0 ** rng.uniform(-3, 0))
+        if _ % 40 == 0:
+            # many pieces: font-unit sized cubics at the smallest accuracy of the quantifier (several hundred to ~1600 quadratics)
+            big = [rng.uniform(-1, 1) * 10.0 ** rng.uniform(2.5, 4) for _k in range(8)]
+            yield to_quads(big, 10.0 ** rng.uniform(-6, -5), 'to_quads-many-pieces')
         m = rng.randint(0, 7)
         yield spline_to_quads([rng.randint(-40, 40) / 4.0 for _ in range(2 * m)])
